@@ -155,6 +155,8 @@ def answer (toks : List String) : String :=
   | ["newmandef", m] =>
     -- per component of size >= 2: reduced Kirchhoff matrix times the computed inverse is the identity,
     -- and kernel + normalisation equals the definition `Σ_{t<s} I_i^{st} / ((N-1)/2)`
+    -- (round 5e: both are theorems now — `ratInv_correct`, `newmanComponent_eq_def` in Properties/C03.lean;
+    -- the evaluation stays as a cross-check of the compiled model)
     let M := boolMat m; let n := M.length; let a := adjOf M
     let ok := (components n a).all fun comp =>
       let N := comp.length
